@@ -994,7 +994,15 @@ func (s *Sim) checkRevisions(v *recView) {
 		s.violate("C08", "C08.update-revision-mismatch", "apply", fmt.Sprintf("applying updateRevision %s to the set does not reproduce its template (err=%v)", upd.Name, err))
 	}
 	// rollback re-use: the update revision carries the highest revision number
+	// (only meaningful when it is part of this set's own history)
+	updMember := true
+	if ref := controllerOf(upd); ref != nil && ref.UID != set.UID {
+		updMember = false
+	}
 	for _, r := range v.listed {
+		if !updMember {
+			break
+		}
 		if ref := controllerOf(r); ref != nil && ref.UID != set.UID {
 			continue // not part of this set's history
 		}
